@@ -234,7 +234,7 @@ pub fn c12() -> i32 {
     // ---- (c) silences of every length, twice
     {
         let mut scns = Vec::new();
-        for (notify, timeout) in [(100u64, 300u64), (500, 2000)] {
+        for (notify, timeout) in [(100u64, 300u64), (500, 2000), (300, 300), (400, 300), (280, 300)] {
             if !t && timeout == 2000 {
                 continue;
             }
@@ -263,6 +263,41 @@ pub fn c12() -> i32 {
         let cfg = ExploreCfg { k: Some(0), wall: Duration::from_secs(if t { 900 } else { 30 }), ..Default::default() };
         let out = explore(&scns, &cfg, &judge);
         rep.absorb("c: two silences of every length 1..timeout+3 rounds separated by a short gap (alternation of NetworkInterrupted / NetworkResumed, Disconnected on time)", out, &props, json!({"k": 0, "scenarios": n}));
+    }
+    // ---- (c2) the application itself stalls (no poll) across the window between the notify delay
+    // and the timeout of a silence, so that one poll finds both thresholds exceeded
+    {
+        let mut scns = Vec::new();
+        for (notify, timeout) in [(100u64, 300u64), (50, 150)] {
+            let n_r = (notify * 1000 / 16_667) as i32;
+            let t_r = (timeout * 1000 / 16_667) as i32;
+            for stall_from in (n_r - 3)..=(n_r + 2) {
+                for stall_len in [(t_r - n_r) - 2, t_r - n_r + 2, t_r + 4] {
+                    for w in [2usize, 0] {
+                        let mut s = base_scn("c12-app-stall", "1+1", w, 0, false, Pred::RepeatLast, Program::Changing, 1);
+                        for p in s.peers.iter_mut() {
+                            p.notify_ms = notify;
+                            p.timeout_ms = timeout;
+                        }
+                        let (a, b) = (s.peers[0].addr, s.peers[1].addr);
+                        // the remote goes silent at round 4 (for good), the application stalls
+                        s.outages.push(Outage { from: b, to: a, start: 4, len: 400, classes: CLASS_ALL });
+                        for r in 0..stall_len.max(1) {
+                            s.scripted_stalls.push((0, 5 + stall_from + r));
+                        }
+                        s.name = format!("{} notify={notify} timeout={timeout} app stalls from silence+{stall_from} for {stall_len}", s.name);
+                        s.horizon = 5 + stall_from + stall_len + 3;
+                        s.probe = t_r + 20;
+                        s.checks = CK_C02;
+                        scns.push(s);
+                    }
+                }
+            }
+        }
+        let n = scns.len();
+        let cfg = ExploreCfg { k: Some(0), wall: Duration::from_secs(60), ..Default::default() };
+        let out = explore(&scns, &cfg, &judge);
+        rep.absorb("c2: the remote goes silent and the application does not poll across the window between notify delay and timeout", out, &props, json!({"k": 0, "scenarios": n}));
     }
     // ---- (g) every up/down pattern of a link, round by round
     {
